@@ -116,6 +116,89 @@ def convert_ops(tbl, ops):
     return out
 
 
+# ---- wide key domains (harness modes iw / sw, key codes 1..24): code 1 is a base key, code 1+j (j = 1..16) agrees with it in
+# exactly the j low bits of std::hash (collision modulo every 2^i, i <= j), then negatives / extremes / a second colliding pair
+INT_WIDE = [None, 1] + [1 + (1 << j) for j in range(1, 17)] + [-1, -65, 2**31 - 1, -2**31, 0, 64, 65536]
+
+
+def low_bits_agree(ha, hb):
+    """number of low bits in which two 64-bit hashes agree"""
+    x = (ha ^ hb) & (2**64 - 1)
+    return 64 if x == 0 else (x & -x).bit_length() - 1
+
+
+def check_pool(ctx, hashes, what):
+    """the structure the cases rely on: code 1 and code 1+j agree in exactly j low hash bits; 18 and 24 collide modulo 64 (strings)"""
+    bad = [j for j in range(1, 17) if low_bits_agree(hashes[1], hashes[1 + j]) != j]
+    if bad:
+        ctx.broken.append("wide key domain (%s): codes 1 and 1+j do not agree in exactly j low hash bits for j in %s" % (what, bad))
+    return not bad
+
+
+def gen_FW(r, maxlen):
+    """histories over a few keys of the wide domain: the base key, one or two of its hash-colliding partners, sometimes others"""
+    keys = [1, 1 + r.randint(1, 16)]
+    if r.random() < 0.6: keys.append(1 + r.randint(1, 16))
+    if r.random() < 0.5: keys.append(r.randint(18, 24))
+    if r.random() < 0.3: keys += [18, 24]
+    ops = []
+    for _ in range(r.randint(2, maxlen)):
+        k = r.choice(keys)
+        c = r.random()
+        if c < 0.30: ops.append("set:%d:%d" % (k, r.randint(1, 99)))
+        elif c < 0.38: ops.append("idx:%d" % k)
+        elif c < 0.58: ops.append("erase:%d" % k)
+        elif c < 0.68: ops.append("at:%d" % k)
+        elif c < 0.74: ops.append("cat:%d" % k)
+        elif c < 0.88: ops.append("has:%d" % k)
+        elif c < 0.94: ops.append("ati:%d" % r.randint(0, 3))
+        elif c < 0.98: ops.append("size")
+        else: ops.append("clear")
+    return "F " + " ".join(ops)
+
+
+def exhaustive_FW(length):
+    """all histories up to `length` over a 7-op alphabet on each colliding pair (a = base key, b = partner modulo 2^j), j = 1..16:
+    insert a, insert b, erase one, look the other up ..."""
+    for j in range(1, 17):
+        a, b = 1, 1 + j
+        alpha = ["set:%d:5" % a, "set:%d:6" % b, "erase:%d" % a, "erase:%d" % b, "has:%d" % b, "at:%d" % a, "idx:%d" % b]
+        for n in range(1, length + 1):
+            for t in itertools.product(alpha, repeat=n):
+                yield "F " + " ".join(t)
+
+
+def wide_keys(ctx, model, exe, r):
+    """key domains wide enough to hit hash / modulus / bit-trick structure"""
+    ih = [None] + [k & (2**64 - 1) for k in INT_WIDE[1:]]          # std::hash<int> is the identity (as size_t)
+    ok_i = check_pool(ctx, ih, "int keys")
+    rc, out, err = ctx.run_exe(exe, ["sw", "--pool"])
+    sh = [None] * 25
+    try:
+        for e in out.strip().split(","):
+            c, h = e.split("=")
+            sh[int(c)] = int(h)
+        ok_s = check_pool(ctx, sh, "string keys, std::hash of this platform")
+        if (sh[18] ^ sh[24]) & 63:
+            ctx.broken.append("wide key domain (string keys): codes 18 and 24 do not collide modulo 64")
+    except Exception as ex:       # noqa: BLE001
+        ctx.broken.append("wide key domain: cannot read the string pool of the harness (%r / %r)" % (out[:100], ex))
+        ok_s = False
+    cases = [gen_FW(r, 30) for _ in range(ctx.pick(1500, 15000))]
+    exh = list(exhaustive_FW(ctx.pick(4, 5)))
+    cases += exh
+    impls = [("FlatMap<int,int> over the wide key domain (k, k+2^j, negatives, extremes)", exe, ["iw"]),
+             ("FlatMap<string,int> over the wide key domain (std::hash collisions modulo 2^j)", exe, ["sw"])]
+    mism, crashes, mlines, _ = compare(ctx, "wide key domain", cases, model, impls)
+    ctx.count(len(cases) * len(impls))
+    for c, ml in list(zip(cases, mlines))[:len(cases) - len(exh)]:
+        if len(set(x.split("|")[1] for x in ml.split(" ; "))) >= 3:
+            ctx.nontriv(c)
+    ctx.cov["wide_key_domain_runs"] = {"int_keys": INT_WIDE[1:], "string_pool_hashes_ok": ok_s, "int_structure_ok": ok_i,
+                                       "random": len(cases) - len(exh), "exhaustive_over_colliding_pairs": len(exh), "mismatches": len(mism)}
+    report(ctx, exe, cases, impls, mism, crashes)
+
+
 def split_case(case):
     """-> (prefix kept when shrinking, ops)"""
     t = case.split()
@@ -338,7 +421,9 @@ def report(ctx, exe, cases, impls, mism, crashes):
                       {"label": label, "stderr_tail": err, "case": cases[n] if n < len(cases) else None,
                        "required": "no crash, no sanitizer report"}, found_input=n < len(cases))
     seen = set()
-    for (i, label, il, ml) in mism[:50]:
+    for (i, label, il, ml) in mism:          # the first mismatch of EVERY implementation, not the first few overall
+        if len(seen) == len(impls):
+            break
         if (label in crashes) or label in seen:
             continue
         seen.add(label)
@@ -739,7 +824,9 @@ def differential_stage(ctx, facts, bad_facts, model, exe, fm_min, exe_po, public
                 "14-op alphabet on 2 keys (incl. the const overloads through a const FlatMap&); each run on FlatMap<int,int>, <string,string>, <string,vector<int>> and ParameterizedObject "
                 "(values set as int/float/string/vec3f and through every argument form whose static type differs from what Any stores: string literals of 4 lengths, char[8], const char*, Any holding int/float/string, empty Any, short, enum; read back as int/float/string/vec3f/const char*/short/enum); plus FlatMap<float,int>/<short,int>/<unsigned char,int>/<string,int> called with double / out-of-range and negative int / const char* "
                 "arguments (random length<=40 and all histories up to length %d over a 10-op alphabet, two spellings per key); "
-                "non-trivial = the container passed through >=3 distinct contents" % (ctx.pick(4, 5), ctx.pick(3, 4)))
+                "plus FlatMap<int,int> / FlatMap<string,int> over a wide key domain (a base key and 16 partners agreeing with it in exactly j low std::hash bits, "
+                "negatives, extremes: random histories and all histories up to length %d over a 7-op alphabet on each colliding pair); "
+                "non-trivial = the container passed through >=3 distinct contents" % (ctx.pick(4, 5), ctx.pick(3, 4), ctx.pick(4, 5)))
     for cs, ms in ((cases, mlines), (pcases, pmlines)):
         for c, ml in list(zip(cs, ms))[:2]:
             ctx.sample({"case": c, "model_and_impl": ml[:300]})
@@ -753,6 +840,8 @@ def differential_stage(ctx, facts, bad_facts, model, exe, fm_min, exe_po, public
         ctx.broken.append("inventory: execution counts not judged - not every harness could be built in full against this tree")
     if exe and not fm_min and not over_budget(ctx):
         stage(ctx, "wide arguments", wide_arguments, ctx, model, exe, r, bad_facts)
+    if exe and not fm_min and not over_budget(ctx):
+        stage(ctx, "wide key domain", wide_keys, ctx, model, exe, r)
     ctx.cov["mismatches"] = len(mism) + len(pmism) + len(vmism) + len(qmism)
     if bad_facts and not ctx.violations:
         ctx.log("no concrete failing history found although source facts are broken: reported as no-failing-input-found")
